@@ -13,7 +13,7 @@ from ..repo import model as M
 NAME = "entry"
 PROPS = ("C19",)
 
-KEYS = ["title", "Title", "a", "b", "year", "TITLE", " a", "a\u00a0", "b\x85", "year "]   # distinct keys, some only by surrounding white space
+KEYS = ["title", "Title", "a", "b", "year", "TITLE", " a", "a\u00a0", "b\x85", "year ", "id", "Id", "entrytype"]   # distinct keys, some only by surrounding white space
 VALS = ["x", "y", "{Braced}", "", 3, ["l", "m"], "x"]
 TYPES = ["article", "book"]
 BKEYS = ["k1", "k2", "K1"]
